@@ -68,488 +68,493 @@ def run(ck):
     R3r = ck.rule('R17.3r', "the _restore_state that InputExp resolves to passes a restored "
                   "'input' value through self._validate before it is installed", 'M0', 1)
 
-    # ------------------------------------------------------------ R17.1
-    fi = valc.methods.get('_validate')
-    ck.need(R1, fi is not None, "_Validation._validate not found")
-    cfg = ck.cfg(fi.fid, 'M1')
-    ck.need(R1, fi.node.args.args and len(fi.node.args.args) == 2, "unexpected _validate signature")
-    param = fi.node.args.args[1].arg
+    with ck.section('R17.1'):
+        # ------------------------------------------------------------ R17.1
+        fi = valc.methods.get('_validate')
+        ck.need(R1, fi is not None, "_Validation._validate not found")
+        cfg = ck.cfg(fi.fid, 'M1')
+        ck.need(R1, fi.node.args.args and len(fi.node.args.args) == 2, "unexpected _validate signature")
+        param = fi.node.args.args[1].arg
 
-    def mentions(n, text):
-        return any(norm(x) == text for r in node_roots(n) for x in walk_shallow(r))
+        def mentions(n, text):
+            return any(norm(x) == text for r in node_roots(n) for x in walk_shallow(r))
 
-    # ---- layout-independent decision: abstract run of _validate on every combination of
-    # (allowed given? member?, check given? passes?, schema given? converts / raises)
-    from sa.minieval import MiniEval
-    import itertools as _it
-    run_bad = []
-    n_run = 0
-    for al, mem, chk_, passes, sch, sch_ok in _it.product((False, True), repeat=6):
-        if (not al and mem) or (not chk_ and passes) or (not sch and sch_ok):
-            continue
-        trace = []
+        # ---- layout-independent decision: abstract run of _validate on every combination of
+        # (allowed given? member?, check given? passes?, schema given? converts / raises)
+        from sa.minieval import MiniEval
+        import itertools as _it
+        run_bad = []
+        n_run = 0
+        for al, mem, chk_, passes, sch, sch_ok in _it.product((False, True), repeat=6):
+            if (not al and mem) or (not chk_ and passes) or (not sch and sch_ok):
+                continue
+            trace = []
 
-        def _check(v, trace=trace, passes=passes):
-            trace.append(('check', v))
-            return 'yes' if passes else 0      # truthiness decides, not identity with True / False
+            def _check(v, trace=trace, passes=passes):
+                trace.append(('check', v))
+                return 'yes' if passes else 0      # truthiness decides, not identity with True / False
 
-        def _schema(v, trace=trace, sch_ok=sch_ok):
-            trace.append(('schema', v))
-            if not sch_ok:
-                raise KeyError('schema failure')
-            return ('CONVERTED', v)
-        env = {param: 'RAW', 'self._allowed': (('RAW',) if mem else ('other',)) if al else None,
-               'self._check': _check if chk_ else None, 'self._schema': _schema if sch else None}
-        try:
-            out = MiniEval(R1, env).run(fi.node.body)
-        except Exception as err:
-            run_bad = None
-            ck.note(f"R17.1 abstract run not applicable: {err}")
-            break
-        n_run += 1
-        ck.abstract_cases += 1
-        want_trace = []
-        want = None
-        if al and not mem:
-            want = ('raise', 'ValueError')
-        else:
-            if chk_:
-                want_trace.append(('check', 'RAW'))
-            if chk_ and not passes:
+            def _schema(v, trace=trace, sch_ok=sch_ok):
+                trace.append(('schema', v))
+                if not sch_ok:
+                    raise KeyError('schema failure')
+                return ('CONVERTED', v)
+            env = {param: 'RAW', 'self._allowed': (('RAW',) if mem else ('other',)) if al else None,
+                   'self._check': _check if chk_ else None, 'self._schema': _schema if sch else None}
+            try:
+                out = MiniEval(R1, env).run(fi.node.body)
+            except Exception as err:
+                run_bad = None
+                ck.note(f"R17.1 abstract run not applicable: {err}")
+                break
+            n_run += 1
+            ck.abstract_cases += 1
+            want_trace = []
+            want = None
+            if al and not mem:
                 want = ('raise', 'ValueError')
             else:
-                if sch:
-                    want_trace.append(('schema', 'RAW'))
-                want = ('raise', 'ValueError') if (sch and not sch_ok) else \
-                    ('return', ('CONVERTED', 'RAW') if sch else 'RAW')
-        if out != want or trace != want_trace:
-            run_bad.append(f"allowed={'given' if al else 'None'}/member={mem}, check={'given' if chk_ else 'None'}"
-                           f"/passes={passes}, schema={'given' if sch else 'None'}/ok={sch_ok}: {out}, calls {trace}; "
-                           f"documented {want}, calls {want_trace}")
-    run_ok = run_bad is not None and not run_bad
-    if run_bad is not None:
-        ck.ob(R1, f"{fi.fid} :: abstract run of the three stages", run_ok,
-              f"evaluated on {n_run} combinations: allowed, then check (on the original value), then "
-              f"schema (last, its result returned, its exceptions turned into ValueError)" if run_ok
-              else "; ".join(run_bad[:3]), fi, fi.node)
-
-    allowed_nodes = nodes_where(cfg, lambda n: any(
-        isinstance(x, ast.Compare) and any(isinstance(op, (ast.In, ast.NotIn)) for op in x.ops)
-        and norm(x.comparators[-1]) == 'self._allowed' for r in node_roots(n) for x in walk_shallow(r)))
-    check_nodes = nodes_calling(cfg, '_check', 'self')
-    schema_nodes = nodes_calling(cfg, '_schema', 'self')
-    ck.ob(R1, f"{fi.fid} :: stages present",
-          bool(allowed_nodes) and bool(check_nodes) and bool(schema_nodes),
-          f"membership test: {len(allowed_nodes)}, check call: {len(check_nodes)}, schema call: "
-          f"{len(schema_nodes)} (each must exist)", fi, fi.node)
-    if allowed_nodes and check_nodes and schema_nodes:
-        a, c, s = allowed_nodes[0], check_nodes[0], schema_nodes[0]
-        def before(x, y):
-            # x can be followed by y, y is never followed by x
-            return y.id in cfg.reachable_from(x) and x.id not in cfg.reachable_from(y)
-        ok = before(a, c) and before(c, s) and before(a, s)
-        ck.ob(R1, f"{fi.fid} :: stage order", ok,
-              "the allowed-test precedes the check-call which precedes the schema-call on every "
-              "path" if ok else
-              f"stage order is not allowed -> check -> schema (lines {a.lineno}, {c.lineno}, "
-              f"{s.lineno})", fi, s.ast)
-        # arguments are the parameter
-        for n, nm in ((c, '_check'), (s, '_schema')):
-            call = node_calls(n, nm, 'self')[0]
-            rd = ck.rdefs(fi.fid, 'M1')
-            good = len(call.args) == 1 and isinstance(call.args[0], ast.Name)
-            if good:
-                defs = rd.defs_at(n, call.args[0].id)
-                good = all(d.kind == 'entry' for d in defs) and call.args[0].id == param
-            ck.ob(R1, f"{fi.fid} :: argument of self.{nm}", good,
-                  f"self.{nm} receives the value being validated" if good else
-                  f"self.{nm}({norm(call.args[0]) if call.args else ''}) does not receive the "
-                  f"unmodified input value", fi, n.ast)
-        # failing stages raise ValueError under the right guards
-        raises = nodes_where(cfg, lambda n: isinstance(n.ast, ast.Raise), kinds=('stmt',))
-
-        def find_raise(facts):
-            for r in raises:
-                if r.kinds == {'N:ValueError'} and all(cfg.has_guard(r, t, p) for t, p in facts):
-                    return r
-            return None
-        ra = find_raise([('self._allowed is not None', True), (f'{param} in self._allowed', False)])
-        ck.ob(R1, f"{fi.fid} :: allowed stage", ra is not None or run_ok,
-              "raises ValueError iff `allowed` is given and the value is not a member" if ra else
-              "no `raise ValueError` guarded by (self._allowed is not None) and "
-              "(value not in self._allowed)", fi, a.ast)
-        rc = find_raise([('self._check is not None', True), (f'self._check({param})', False)])
-        ck.ob(R1, f"{fi.fid} :: check stage", rc is not None or run_ok,
-              "raises ValueError iff `check` is given and returns a false value" if rc else
-              "no `raise ValueError` guarded by (self._check is not None) and "
-              "(not self._check(value))", fi, c.ast)
-        # a stage must not be skipped (nor its failure ignored) for any other reason
-        extra_a = [t for t, p in (cfg.guard_texts(ra) if ra else ()) if '_allowed' not in t]
-        extra_c = [t for t, p in (cfg.guard_texts(rc) if rc else ())
-                   if '_allowed' not in t and '_check' not in t]
-        ck.ob(R1, f"{fi.fid} :: stages unconditional", not extra_a and not extra_c,
-              "the rejections of the allowed and check stages depend only on their own tests"
-              if not extra_a and not extra_c else
-              f"a stage's rejection additionally depends on {extra_a + extra_c}", fi, a.ast)
-        # schema stage: guarded by is-not-None only, exceptions converted to ValueError
-        gs = cfg.has_guard(s, 'self._schema is not None', True)
-        bad_path = None
-        for v, lab in cfg.succ[s.id]:
-            if lab == 'exc':
-                vn = cfg.nodes[v]
-                conv = [r for r in raises if r.kinds == {'N:ValueError'}]
-                bad_path = cfg.path_avoiding(vn, [cfg.raise_exit], avoid=conv)
-                if bad_path is None:
-                    # and the handler must not fall through to a normal return
-                    bad_path = cfg.path_avoiding(vn, [cfg.exit], avoid=conv)
-        ck.ob(R1, f"{fi.fid} :: schema stage", (gs and bad_path is None) or run_ok,
-              "schema applied iff given; any exception it raises leaves as ValueError"
-              if gs and bad_path is None else
-              ("the schema call is not guarded by `self._schema is not None`" if not gs else
-               "an exception of the schema function can leave _validate unconverted or be "
-               "swallowed"), fi, s.ast, witness=path_witness(cfg, bad_path))
-        # return value: the schema result flows to the return
-        rets = return_nodes(cfg)
-        rd = ck.rdefs(fi.fid, 'M1')
-        ok = bool(rets)
-        why = []
-        for r in rets:
-            v = r.ast.value
-            if not isinstance(v, ast.Name):
-                ok = False
-                why.append(f"`{norm1(r.ast)}` does not return a plain value variable")
-                continue
-            defs = rd.defs_at(r, v.id)
-            kinds = set()
-            for d in defs:
-                if d.kind == 'entry' and v.id == param:
-                    kinds.add('param')
-                elif d is s:
-                    kinds.add('schema')
+                if chk_:
+                    want_trace.append(('check', 'RAW'))
+                if chk_ and not passes:
+                    want = ('raise', 'ValueError')
                 else:
-                    kinds.add('other')
-                    why.append(f"`{v.id}` may come from `{norm1(d.ast)}`")
-            if 'schema' not in kinds:
-                ok = False
-                why.append("the schema's result does not reach the return statement")
-            if 'other' in kinds:
-                ok = False
-            # on paths through the schema stage the raw parameter must be overwritten
-            if 'param' in kinds:
-                p = cfg.path_avoiding(cfg.entry, [r], avoid=[s])
-                if p is not None and any(n.kind == 'branch' and n.polarity and
-                                         'self._schema' in norm(n.test.ast) and
-                                         'is not None' in norm(n.test.ast) for n in p):
+                    if sch:
+                        want_trace.append(('schema', 'RAW'))
+                    want = ('raise', 'ValueError') if (sch and not sch_ok) else \
+                        ('return', ('CONVERTED', 'RAW') if sch else 'RAW')
+            if out != want or trace != want_trace:
+                run_bad.append(f"allowed={'given' if al else 'None'}/member={mem}, check={'given' if chk_ else 'None'}"
+                               f"/passes={passes}, schema={'given' if sch else 'None'}/ok={sch_ok}: {out}, calls {trace}; "
+                               f"documented {want}, calls {want_trace}")
+        run_ok = run_bad is not None and not run_bad
+        if run_bad is not None:
+            ck.ob(R1, f"{fi.fid} :: abstract run of the three stages", run_ok,
+                  f"evaluated on {n_run} combinations: allowed, then check (on the original value), then "
+                  f"schema (last, its result returned, its exceptions turned into ValueError)" if run_ok
+                  else "; ".join(run_bad[:3]), fi, fi.node)
+
+        allowed_nodes = nodes_where(cfg, lambda n: any(
+            isinstance(x, ast.Compare) and any(isinstance(op, (ast.In, ast.NotIn)) for op in x.ops)
+            and norm(x.comparators[-1]) == 'self._allowed' for r in node_roots(n) for x in walk_shallow(r)))
+        check_nodes = nodes_calling(cfg, '_check', 'self')
+        schema_nodes = nodes_calling(cfg, '_schema', 'self')
+        ck.ob(R1, f"{fi.fid} :: stages present",
+              bool(allowed_nodes) and bool(check_nodes) and bool(schema_nodes),
+              f"membership test: {len(allowed_nodes)}, check call: {len(check_nodes)}, schema call: "
+              f"{len(schema_nodes)} (each must exist)", fi, fi.node)
+        if allowed_nodes and check_nodes and schema_nodes:
+            a, c, s = allowed_nodes[0], check_nodes[0], schema_nodes[0]
+            def before(x, y):
+                # x can be followed by y, y is never followed by x
+                return y.id in cfg.reachable_from(x) and x.id not in cfg.reachable_from(y)
+            ok = before(a, c) and before(c, s) and before(a, s)
+            ck.ob(R1, f"{fi.fid} :: stage order", ok,
+                  "the allowed-test precedes the check-call which precedes the schema-call on every "
+                  "path" if ok else
+                  f"stage order is not allowed -> check -> schema (lines {a.lineno}, {c.lineno}, "
+                  f"{s.lineno})", fi, s.ast)
+            # arguments are the parameter
+            for n, nm in ((c, '_check'), (s, '_schema')):
+                call = node_calls(n, nm, 'self')[0]
+                rd = ck.rdefs(fi.fid, 'M1')
+                good = len(call.args) == 1 and isinstance(call.args[0], ast.Name)
+                if good:
+                    defs = rd.defs_at(n, call.args[0].id)
+                    good = all(d.kind == 'entry' for d in defs) and call.args[0].id == param
+                ck.ob(R1, f"{fi.fid} :: argument of self.{nm}", good,
+                      f"self.{nm} receives the value being validated" if good else
+                      f"self.{nm}({norm(call.args[0]) if call.args else ''}) does not receive the "
+                      f"unmodified input value", fi, n.ast)
+            # failing stages raise ValueError under the right guards
+            raises = nodes_where(cfg, lambda n: isinstance(n.ast, ast.Raise), kinds=('stmt',))
+
+            def find_raise(facts):
+                for r in raises:
+                    if r.kinds == {'N:ValueError'} and all(cfg.has_guard(r, t, p) for t, p in facts):
+                        return r
+                return None
+            ra = find_raise([('self._allowed is not None', True), (f'{param} in self._allowed', False)])
+            ck.ob(R1, f"{fi.fid} :: allowed stage", ra is not None or run_ok,
+                  "raises ValueError iff `allowed` is given and the value is not a member" if ra else
+                  "no `raise ValueError` guarded by (self._allowed is not None) and "
+                  "(value not in self._allowed)", fi, a.ast)
+            rc = find_raise([('self._check is not None', True), (f'self._check({param})', False)])
+            ck.ob(R1, f"{fi.fid} :: check stage", rc is not None or run_ok,
+                  "raises ValueError iff `check` is given and returns a false value" if rc else
+                  "no `raise ValueError` guarded by (self._check is not None) and "
+                  "(not self._check(value))", fi, c.ast)
+            # a stage must not be skipped (nor its failure ignored) for any other reason
+            extra_a = [t for t, p in (cfg.guard_texts(ra) if ra else ()) if '_allowed' not in t]
+            extra_c = [t for t, p in (cfg.guard_texts(rc) if rc else ())
+                       if '_allowed' not in t and '_check' not in t]
+            ck.ob(R1, f"{fi.fid} :: stages unconditional", not extra_a and not extra_c,
+                  "the rejections of the allowed and check stages depend only on their own tests"
+                  if not extra_a and not extra_c else
+                  f"a stage's rejection additionally depends on {extra_a + extra_c}", fi, a.ast)
+            # schema stage: guarded by is-not-None only, exceptions converted to ValueError
+            gs = cfg.has_guard(s, 'self._schema is not None', True)
+            bad_path = None
+            for v, lab in cfg.succ[s.id]:
+                if lab == 'exc':
+                    vn = cfg.nodes[v]
+                    conv = [r for r in raises if r.kinds == {'N:ValueError'}]
+                    bad_path = cfg.path_avoiding(vn, [cfg.raise_exit], avoid=conv)
+                    if bad_path is None:
+                        # and the handler must not fall through to a normal return
+                        bad_path = cfg.path_avoiding(vn, [cfg.exit], avoid=conv)
+            ck.ob(R1, f"{fi.fid} :: schema stage", (gs and bad_path is None) or run_ok,
+                  "schema applied iff given; any exception it raises leaves as ValueError"
+                  if gs and bad_path is None else
+                  ("the schema call is not guarded by `self._schema is not None`" if not gs else
+                   "an exception of the schema function can leave _validate unconverted or be "
+                   "swallowed"), fi, s.ast, witness=path_witness(cfg, bad_path))
+            # return value: the schema result flows to the return
+            rets = return_nodes(cfg)
+            rd = ck.rdefs(fi.fid, 'M1')
+            ok = bool(rets)
+            why = []
+            for r in rets:
+                v = r.ast.value
+                if not isinstance(v, ast.Name):
                     ok = False
-                    why.append("a path with a schema returns the raw value")
-        ck.ob(R1, f"{fi.fid} :: returned value", ok or run_ok,
-              "returns schema(value) when a schema exists, else the value" if ok
-              else '; '.join(why), fi, rets[0].ast if rets else fi.node)
+                    why.append(f"`{norm1(r.ast)}` does not return a plain value variable")
+                    continue
+                defs = rd.defs_at(r, v.id)
+                kinds = set()
+                for d in defs:
+                    if d.kind == 'entry' and v.id == param:
+                        kinds.add('param')
+                    elif d is s:
+                        kinds.add('schema')
+                    else:
+                        kinds.add('other')
+                        why.append(f"`{v.id}` may come from `{norm1(d.ast)}`")
+                if 'schema' not in kinds:
+                    ok = False
+                    why.append("the schema's result does not reach the return statement")
+                if 'other' in kinds:
+                    ok = False
+                # on paths through the schema stage the raw parameter must be overwritten
+                if 'param' in kinds:
+                    p = cfg.path_avoiding(cfg.entry, [r], avoid=[s])
+                    if p is not None and any(n.kind == 'branch' and n.polarity and
+                                             'self._schema' in norm(n.test.ast) and
+                                             'is not None' in norm(n.test.ast) for n in p):
+                        ok = False
+                        why.append("a path with a schema returns the raw value")
+            ck.ob(R1, f"{fi.fid} :: returned value", ok or run_ok,
+                  "returns schema(value) when a schema exists, else the value" if ok
+                  else '; '.join(why), fi, rets[0].ast if rets else fi.node)
 
-    # ------------------------------------------------------------ R17.2 (Input)
-    # layout-independent decision for the put handler: abstract run with a validator that accepts
-    # (returning a converted value) or rejects (ValueError); helper methods are stepped into
-    from sa.minieval import MiniEval
+    with ck.section('R17.2'):
+        # ------------------------------------------------------------ R17.2 (Input)
+        # layout-independent decision for the put handler: abstract run with a validator that accepts
+        # (returning a converted value) or rejects (ValueError); helper methods are stepped into
+        from sa.minieval import MiniEval
 
-    def _resolver(ci):
-        def resolve(text):
-            if text.startswith('self.') and text[5:].isidentifier() and text[5:] not in ('_validate', 'set_output'):
-                f_ = prog.resolve_method(ci, text[5:])
-                if f_ is not None and not prog.is_dummy(f_) and f_.module.name == ci.module.name:
-                    return f_.node
-            return None
-        return resolve
-    put = inp.methods.get('_event_put')
-    ck.need(R2, put is not None, "Input._event_put not found")
-    put_run_ok = None
-    try:
-        bad_ = []
-        for accept in (True, False):
-            outs = []
+        def _resolver(ci):
+            def resolve(text):
+                if text.startswith('self.') and text[5:].isidentifier() and text[5:] not in ('_validate', 'set_output'):
+                    f_ = prog.resolve_method(ci, text[5:])
+                    if f_ is not None and not prog.is_dummy(f_) and f_.module.name == ci.module.name:
+                        return f_.node
+                return None
+            return resolve
+        put = inp.methods.get('_event_put')
+        ck.need(R2, put is not None, "Input._event_put not found")
+        put_run_ok = None
+        try:
+            bad_ = []
+            for accept in (True, False):
+                outs = []
 
-            def _val(v, accept=accept):
-                if not accept:
-                    raise ValueError('rejected')
-                return ('VALIDATED', v)
-            env = {'value': 'RAW', 'self._validate': _val, 'self.set_output': lambda v, outs=outs: outs.append(v)}
-            kw_ = put.node.args.kwarg.arg if put.node.args.kwarg else None
-            if kw_:
-                env[kw_] = {}
-            res = MiniEval(R2, env, resolve=_resolver(inp)).run(put.node.body)
-            ck.abstract_cases += 1
-            want = (('return', True), [('VALIDATED', 'RAW')]) if accept else (('return', False), [])
-            if (res, outs) != want:
-                bad_.append(f"validator {'accepts' if accept else 'rejects'}: returns {res}, outputs {outs}")
-        put_run_ok = not bad_
-        ck.ob(R2, f"{put.fid} :: abstract run", put_run_ok,
-              "an accepted value is output in its validated form and True is returned; a rejected value "
-              "leaves the output alone and returns False" if put_run_ok else "; ".join(bad_), put, put.node)
-    except AnalysisError as err:
-        ck.note(f"R17.2 abstract run of Input._event_put not applicable: {err.reason}")
-    n_sites = 0
-    for name, m in sorted(inp.methods.items()):
-        if m is put and put_run_ok:
-            n_sites += 1
-            continue
-        g = ck.cfg(m.fid, 'M1')
-        for n in nodes_calling(g, 'set_output'):
-            for call in node_calls(n, 'set_output'):
+                def _val(v, accept=accept):
+                    if not accept:
+                        raise ValueError('rejected')
+                    return ('VALIDATED', v)
+                env = {'value': 'RAW', 'self._validate': _val, 'self.set_output': lambda v, outs=outs: outs.append(v)}
+                kw_ = put.node.args.kwarg.arg if put.node.args.kwarg else None
+                if kw_:
+                    env[kw_] = {}
+                res = MiniEval(R2, env, resolve=_resolver(inp)).run(put.node.body)
+                ck.abstract_cases += 1
+                want = (('return', True), [('VALIDATED', 'RAW')]) if accept else (('return', False), [])
+                if (res, outs) != want:
+                    bad_.append(f"validator {'accepts' if accept else 'rejects'}: returns {res}, outputs {outs}")
+            put_run_ok = not bad_
+            ck.ob(R2, f"{put.fid} :: abstract run", put_run_ok,
+                  "an accepted value is output in its validated form and True is returned; a rejected value "
+                  "leaves the output alone and returns False" if put_run_ok else "; ".join(bad_), put, put.node)
+        except AnalysisError as err:
+            ck.note(f"R17.2 abstract run of Input._event_put not applicable: {err.reason}")
+        n_sites = 0
+        for name, m in sorted(inp.methods.items()):
+            if m is put and put_run_ok:
                 n_sites += 1
-                ok, why = (False, 'unexpected call shape')
-                if len(call.args) == 1:
-                    ok, why = _validated_value(ck, m, g, n, call.args[0])
-                ck.ob(R2, f"{m.fid} :: {norm1(n.ast)}", ok, why, m, n.ast)
-    g = ck.cfg(put.fid, 'M1')
-    vnodes = nodes_where(g, lambda n: any(_is_validate_call(c) for c in node_calls(n)))
-    ck.need(R2, vnodes or put_run_ok, "Input._event_put does not call self._validate")
-    if vnodes:
-        so = nodes_calling(g, 'set_output')
-        # validate receives the event's value item
-        call = [c for c in node_calls(vnodes[0]) if _is_validate_call(c)][0]
-        rd = ck.rdefs(put.fid, 'M1')
-        arg_ok = (len(call.args) == 1 and isinstance(call.args[0], ast.Name)
-                  and call.args[0].id == 'value'
-                  and all(d.kind == 'entry' for d in rd.defs_at(vnodes[0], 'value')))
-        ck.ob(R2, f"{put.fid} :: validated operand", arg_ok,
-              "self._validate receives the event's `value` item" if arg_ok else
-              f"self._validate({norm(call.args[0]) if call.args else ''}) is not applied to the "
-              f"event's unmodified `value` item", put, vnodes[0].ast)
-        # rejecting edge: handler -> return False, no set_output
-        hnodes = [n for n in g.nodes if n.kind == 'handler' and g.pred[n.id]]
-        rej_ok = bool(hnodes)
+                continue
+            g = ck.cfg(m.fid, 'M1')
+            for n in nodes_calling(g, 'set_output'):
+                for call in node_calls(n, 'set_output'):
+                    n_sites += 1
+                    ok, why = (False, 'unexpected call shape')
+                    if len(call.args) == 1:
+                        ok, why = _validated_value(ck, m, g, n, call.args[0])
+                    ck.ob(R2, f"{m.fid} :: {norm1(n.ast)}", ok, why, m, n.ast)
+        g = ck.cfg(put.fid, 'M1')
+        vnodes = nodes_where(g, lambda n: any(_is_validate_call(c) for c in node_calls(n)))
+        ck.need(R2, vnodes or put_run_ok, "Input._event_put does not call self._validate")
+        if vnodes:
+            so = nodes_calling(g, 'set_output')
+            # validate receives the event's value item
+            call = [c for c in node_calls(vnodes[0]) if _is_validate_call(c)][0]
+            rd = ck.rdefs(put.fid, 'M1')
+            arg_ok = (len(call.args) == 1 and isinstance(call.args[0], ast.Name)
+                      and call.args[0].id == 'value'
+                      and all(d.kind == 'entry' for d in rd.defs_at(vnodes[0], 'value')))
+            ck.ob(R2, f"{put.fid} :: validated operand", arg_ok,
+                  "self._validate receives the event's `value` item" if arg_ok else
+                  f"self._validate({norm(call.args[0]) if call.args else ''}) is not applied to the "
+                  f"event's unmodified `value` item", put, vnodes[0].ast)
+            # rejecting edge: handler -> return False, no set_output
+            hnodes = [n for n in g.nodes if n.kind == 'handler' and g.pred[n.id]]
+            rej_ok = bool(hnodes)
+            wit = None
+            for h in hnodes:
+                reach = g.reachable_from(h)
+                if any(s.id in reach for s in so):
+                    rej_ok = False
+                    wit = g.path_avoiding(h, so)
+                rets = [r for r in return_nodes(g) if r.id in reach]
+                if not rets or not all(is_const(r.ast.value, False) for r in rets):
+                    rej_ok = False
+                if g.exit.id in reach and must_pass(g, h, rets, [g.exit]) is not None:
+                    rej_ok = False
+            ck.ob(R2, f"{put.fid} :: rejecting edge", rej_ok,
+                  "a rejected value returns False and never reaches set_output" if rej_ok else
+                  "the ValueError edge of self._validate reaches set_output or does not return False",
+                  put, hnodes[0].ast if hnodes else put.node, witness=path_witness(g, wit))
+            # accepted path returns True after set_output
+            acc_rets = [r for r in return_nodes(g) if so and any(g.dominates(s, r) for s in so)]
+            acc_ok = bool(acc_rets) and all(is_const(r.ast.value, True) for r in acc_rets)
+            p = must_pass(g, so[0], acc_rets, [g.exit]) if so else None
+            ck.ob(R2, f"{put.fid} :: accepting edge", acc_ok and p is None and bool(so),
+                  "an accepted value is stored and the event returns True" if acc_ok and p is None else
+                  "after set_output the handler does not return True on every path", put,
+                  so[0].ast if so else put.node, witness=path_witness(g, p))
+
+
+    with ck.section('R17.2b'):
+        # ------------------------------------------------------------ R17.2b
+        for hook in ('init_from_value', '_restore_state'):
+            t = prog.resolve_method(inp, hook)
+            ok = False
+            why = "not defined"
+            if t is not None and not prog.is_dummy(t):
+                g2 = ck.cfg(t.fid, 'M0')
+                direct = nodes_calling(g2, 'set_output') + nodes_writing_attr(g2, '_output', None)
+                evs = nodes_where(g2, lambda n: any(
+                    isinstance(c.func, ast.Attribute) and c.func.attr == 'event'
+                    and recv(c) == 'self' and c.args and is_const(c.args[0], 'put')
+                    and any(k.arg == 'value' and isinstance(k.value, ast.Name)
+                            and k.value.id == t.node.args.args[1].arg for k in c.keywords)
+                    for c in node_calls(n)))
+                if direct:
+                    why = f"{t.fid} sets the output directly, bypassing the validation"
+                elif not evs or must_pass(g2, g2.entry, evs, [g2.exit]) is not None:
+                    why = f"{t.fid} does not deliver its argument as event('put', value=...)"
+                else:
+                    ok = True
+                    why = f"{hook} -> {t.fid}: delivers the value as a 'put' event (validated there)"
+            ck.ob(R2b, f"{INPUT}.{hook}", ok, why, t, t.node if t is not None else None)
+        gs = prog.resolve_method(inp, 'get_state')
+        ck.ob(R2b, f"{INPUT}.get_state", gs is not None and gs.fid == 'block:SBlock.get_state',
+              f"get_state resolves to {gs.fid if gs else None} (state = output)", gs,
+              gs.node if gs else None)
+        init = inp.methods.get('__init__')
+        ck.need(R2b, init is not None, "Input.__init__ not found")
+        g3 = ck.cfg(init.fid, 'M0')
+        vcalls = nodes_where(g3, lambda n: any(_is_validate_call(c) and len(c.args) == 1
+                                               and norm(c.args[0]) == 'self.initdef'
+                                               for c in node_calls(n)))
+        ok = False
+        why = "Input.__init__ does not validate self.initdef"
+        if vcalls:
+            v = vcalls[0]
+            other = [gt for gt in g3.guard_texts(v) if 'initdef' not in gt[0]]
+            skipping = g3.path_avoiding(g3.entry, [g3.exit], avoid=[v])
+            ok = not other
+            if skipping is not None:
+                # a path skipping the validation must go through the `initdef is UNDEF` branch
+                ok = ok and any(n.kind == 'branch' and 'initdef' in norm(n.test.ast) and 'UNDEF' in
+                                norm(n.test.ast) for n in skipping)
+            why = ("initdef is validated at creation unless it is UNDEF" if ok else
+                   "the validation of initdef can be skipped for a reason other than initdef being UNDEF")
+        ck.ob(R2b, f"{init.fid} :: initdef validated", ok, why, init, init.node)
+        nd = 0
+        for cls in (inp, iexp, valc):
+            for name, m in sorted(cls.methods.items()):
+                for n in nodes_writing_attr(ck.cfg(m.fid, 'M0'), '_output', None):
+                    nd += 1
+                    ck.ob(R2b, f"{m.fid} :: {norm1(n.ast)}", False,
+                          "writes _output directly (no validation, no notification)", m, n.ast)
+        ck.ob(R2b, "Input/InputExp/_Validation :: direct _output writes", nd == 0,
+              f"{nd} direct writes of _output in the three classes", None,
+              f"{inp.module.path}:{inp.node.lineno}")
+
+    with ck.section('R17.3'):
+        # ------------------------------------------------------------ R17.3 (InputExp)
+        cp = iexp.methods.get('cond_put')
+        ck.need(R3, cp is not None, "InputExp.cond_put not found")
+        cp_run_ok = None
+        try:
+            bad_ = []
+            for accept in (True, False):
+                sd = {'other': 1}
+
+                def _val(v, accept=accept):
+                    if not accept:
+                        raise ValueError('rejected')
+                    return ('VALIDATED', v)
+                env = {'fsm.fsm_event_data.get()': {'value': 'RAW'}, 'fsm_event_data.get()': {'value': 'RAW'},
+                       'self._validate': _val, 'self.sdata': sd}
+                res = MiniEval(R3, env, resolve=_resolver(iexp)).run(cp.node.body)
+                ck.abstract_cases += 1
+                want = (('return', True), {'other': 1, 'input': ('VALIDATED', 'RAW')}) if accept else \
+                    (('return', False), {'other': 1})
+                if (res, sd) != want:
+                    bad_.append(f"validator {'accepts' if accept else 'rejects'}: returns {res}, sdata {sd}")
+            cp_run_ok = not bad_
+            ck.ob(R3, f"{cp.fid} :: abstract run", cp_run_ok,
+                  "an accepted value is stored in its validated form and the condition is true; a rejected "
+                  "value is not stored and the condition is false" if cp_run_ok else "; ".join(bad_), cp, cp.node)
+        except AnalysisError as err:
+            ck.note(f"R17.3 abstract run of InputExp.cond_put not applicable: {err.reason}")
+        for name, m in sorted(iexp.methods.items()):
+            if m is cp and cp_run_ok:
+                continue
+            g = ck.cfg(m.fid, 'M1')
+            for n in nodes_where(g, lambda n: n.kind == 'stmt'):
+                for tgt, kind, stmt in subscript_writes(n.ast):
+                    if norm(tgt.value) == 'self.sdata' and is_const(tgt.slice, 'input'):
+                        if kind == 'del':
+                            continue
+                        ok, why = (False, "augmented assignment")
+                        if kind == 'assign' and isinstance(stmt, ast.Assign):
+                            ok, why = _validated_value(ck, m, g, n, stmt.value)
+                        ck.ob(R3, f"{m.fid} :: {norm1(stmt)}", ok, why, m, stmt)
+                for w in ([n] if n in nodes_writing_attr(g, '_expired') else []):
+                    v = w.ast.value if isinstance(w.ast, ast.Assign) else None
+                    ok, why = _validated_value(ck, m, g, w, v) if v is not None else (False, 'no value')
+                    ck.ob(R3, f"{m.fid} :: {norm1(w.ast)}", ok, why, m, w.ast)
+                for w in ([n] if n in nodes_writing_attr(g, 'sdata') else []):
+                    ck.ob(R3, f"{m.fid} :: {norm1(w.ast)}", False,
+                          "replaces self.sdata wholesale without validating its 'input' item",
+                          m, w.ast)
+        g = ck.cfg(cp.fid, 'M1')
+        hn = [n for n in g.nodes if n.kind == 'handler' and g.pred[n.id]]
+        writes = nodes_where(g, lambda n: n.kind == 'stmt' and any(
+            norm(t.value) == 'self.sdata' for t, k, s in subscript_writes(n.ast)))
+        ok = bool(hn) and bool(writes)
         wit = None
-        for h in hnodes:
+        for h in hn:
             reach = g.reachable_from(h)
-            if any(s.id in reach for s in so):
-                rej_ok = False
-                wit = g.path_avoiding(h, so)
+            if any(w.id in reach for w in writes):
+                ok = False
+                wit = g.path_avoiding(h, writes)
             rets = [r for r in return_nodes(g) if r.id in reach]
             if not rets or not all(is_const(r.ast.value, False) for r in rets):
-                rej_ok = False
-            if g.exit.id in reach and must_pass(g, h, rets, [g.exit]) is not None:
-                rej_ok = False
-        ck.ob(R2, f"{put.fid} :: rejecting edge", rej_ok,
-              "a rejected value returns False and never reaches set_output" if rej_ok else
-              "the ValueError edge of self._validate reaches set_output or does not return False",
-              put, hnodes[0].ast if hnodes else put.node, witness=path_witness(g, wit))
-        # accepted path returns True after set_output
-        acc_rets = [r for r in return_nodes(g) if so and any(g.dominates(s, r) for s in so)]
-        acc_ok = bool(acc_rets) and all(is_const(r.ast.value, True) for r in acc_rets)
-        p = must_pass(g, so[0], acc_rets, [g.exit]) if so else None
-        ck.ob(R2, f"{put.fid} :: accepting edge", acc_ok and p is None and bool(so),
-              "an accepted value is stored and the event returns True" if acc_ok and p is None else
-              "after set_output the handler does not return True on every path", put,
-              so[0].ast if so else put.node, witness=path_witness(g, p))
+                ok = False
+        acc = [r for r in return_nodes(g) if writes and any(g.dominates(w, r) for w in writes)]
+        ok = ok and bool(acc) and all(is_const(r.ast.value, True) for r in acc)
+        ck.ob(R3, f"{cp.fid} :: accept/reject edges", ok or bool(cp_run_ok),
+              "a rejected value returns False without storing; an accepted one is stored and returns "
+              "True" if ok else "cond_put stores on the rejecting edge or returns the wrong verdict",
+              cp, cp.node, witness=path_witness(g, wit))
+        co = prog.resolve_method(iexp, 'calc_output')
+        ck.need(R3, co is not None, "InputExp.calc_output not found")
+        g = ck.cfg(co.fid, 'M0')
+        leaves = []
 
+        def leaf(e):
+            if isinstance(e, ast.IfExp):
+                leaf(e.body)
+                leaf(e.orelse)
+            else:
+                leaves.append(norm(e))
+        for r in return_nodes(g):
+            if r.ast.value is not None:
+                leaf(r.ast.value)
+        allowed_leaves = {"self.sdata['input']", "self._expired"}
+        ok = co.cls is iexp and bool(leaves) and set(leaves) <= allowed_leaves \
+            and set(leaves) == allowed_leaves
+        ck.ob(R3, f"{co.fid} :: returned values", ok,
+              f"calc_output returns only {sorted(allowed_leaves)}" if ok else
+              f"calc_output of InputExp ({co.fid}) may return {sorted(set(leaves))}; expected exactly "
+              f"the validated value and the validated `expired` value", co, co.node)
 
-    # ------------------------------------------------------------ R17.2b
-    for hook in ('init_from_value', '_restore_state'):
-        t = prog.resolve_method(inp, hook)
+    with ck.section('R17.3r'):
+        # ------------------------------------------------------------ R17.3r (restore)
+        rs = prog.resolve_method(iexp, '_restore_state')
+        ck.need(R3r, rs is not None, "InputExp has no _restore_state")
         ok = False
-        why = "not defined"
-        if t is not None and not prog.is_dummy(t):
-            g2 = ck.cfg(t.fid, 'M0')
-            direct = nodes_calling(g2, 'set_output') + nodes_writing_attr(g2, '_output', None)
-            evs = nodes_where(g2, lambda n: any(
-                isinstance(c.func, ast.Attribute) and c.func.attr == 'event'
-                and recv(c) == 'self' and c.args and is_const(c.args[0], 'put')
-                and any(k.arg == 'value' and isinstance(k.value, ast.Name)
-                        and k.value.id == t.node.args.args[1].arg for k in c.keywords)
-                for c in node_calls(n)))
-            if direct:
-                why = f"{t.fid} sets the output directly, bypassing the validation"
-            elif not evs or must_pass(g2, g2.entry, evs, [g2.exit]) is not None:
-                why = f"{t.fid} does not deliver its argument as event('put', value=...)"
+        why = (f"_restore_state of InputExp resolves to {rs.fid}, which installs the stored sdata "
+               f"(incl. 'input') without calling self._validate: a persisted value outside the "
+               f"accepted set becomes the output after a restart")
+        wit = None
+        if rs.cls in (iexp, valc):
+            g = ck.cfg(rs.fid, 'M0')
+            vn = nodes_where(g, lambda n: any(_is_validate_call(c) for c in node_calls(n)))
+            installs = nodes_where(g, lambda n: any(is_super_call(c, '_restore_state')
+                                                    for c in node_calls(n))) + \
+                nodes_writing_attr(g, 'sdata')
+            if not vn:
+                why = f"{rs.fid} does not call self._validate"
+            elif not installs:
+                why = f"{rs.fid} neither calls super()._restore_state nor installs sdata"
             else:
-                ok = True
-                why = f"{hook} -> {t.fid}: delivers the value as a 'put' event (validated there)"
-        ck.ob(R2b, f"{INPUT}.{hook}", ok, why, t, t.node if t is not None else None)
-    gs = prog.resolve_method(inp, 'get_state')
-    ck.ob(R2b, f"{INPUT}.get_state", gs is not None and gs.fid == 'block:SBlock.get_state',
-          f"get_state resolves to {gs.fid if gs else None} (state = output)", gs,
-          gs.node if gs else None)
-    init = inp.methods.get('__init__')
-    ck.need(R2b, init is not None, "Input.__init__ not found")
-    g3 = ck.cfg(init.fid, 'M0')
-    vcalls = nodes_where(g3, lambda n: any(_is_validate_call(c) and len(c.args) == 1
-                                           and norm(c.args[0]) == 'self.initdef'
-                                           for c in node_calls(n)))
-    ok = False
-    why = "Input.__init__ does not validate self.initdef"
-    if vcalls:
-        v = vcalls[0]
-        other = [gt for gt in g3.guard_texts(v) if 'initdef' not in gt[0]]
-        skipping = g3.path_avoiding(g3.entry, [g3.exit], avoid=[v])
-        ok = not other
-        if skipping is not None:
-            # a path skipping the validation must go through the `initdef is UNDEF` branch
-            ok = ok and any(n.kind == 'branch' and 'initdef' in norm(n.test.ast) and 'UNDEF' in
-                            norm(n.test.ast) for n in skipping)
-        why = ("initdef is validated at creation unless it is UNDEF" if ok else
-               "the validation of initdef can be skipped for a reason other than initdef being UNDEF")
-    ck.ob(R2b, f"{init.fid} :: initdef validated", ok, why, init, init.node)
-    nd = 0
-    for cls in (inp, iexp, valc):
-        for name, m in sorted(cls.methods.items()):
-            for n in nodes_writing_attr(ck.cfg(m.fid, 'M0'), '_output', None):
-                nd += 1
-                ck.ob(R2b, f"{m.fid} :: {norm1(n.ast)}", False,
-                      "writes _output directly (no validation, no notification)", m, n.ast)
-    ck.ob(R2b, "Input/InputExp/_Validation :: direct _output writes", nd == 0,
-          f"{nd} direct writes of _output in the three classes", None,
-          f"{inp.module.path}:{inp.node.lineno}")
-
-    # ------------------------------------------------------------ R17.3 (InputExp)
-    cp = iexp.methods.get('cond_put')
-    ck.need(R3, cp is not None, "InputExp.cond_put not found")
-    cp_run_ok = None
-    try:
-        bad_ = []
-        for accept in (True, False):
-            sd = {'other': 1}
-
-            def _val(v, accept=accept):
-                if not accept:
-                    raise ValueError('rejected')
-                return ('VALIDATED', v)
-            env = {'fsm.fsm_event_data.get()': {'value': 'RAW'}, 'fsm_event_data.get()': {'value': 'RAW'},
-                   'self._validate': _val, 'self.sdata': sd}
-            res = MiniEval(R3, env, resolve=_resolver(iexp)).run(cp.node.body)
-            ck.abstract_cases += 1
-            want = (('return', True), {'other': 1, 'input': ('VALIDATED', 'RAW')}) if accept else \
-                (('return', False), {'other': 1})
-            if (res, sd) != want:
-                bad_.append(f"validator {'accepts' if accept else 'rejects'}: returns {res}, sdata {sd}")
-        cp_run_ok = not bad_
-        ck.ob(R3, f"{cp.fid} :: abstract run", cp_run_ok,
-              "an accepted value is stored in its validated form and the condition is true; a rejected "
-              "value is not stored and the condition is false" if cp_run_ok else "; ".join(bad_), cp, cp.node)
-    except AnalysisError as err:
-        ck.note(f"R17.3 abstract run of InputExp.cond_put not applicable: {err.reason}")
-    for name, m in sorted(iexp.methods.items()):
-        if m is cp and cp_run_ok:
-            continue
-        g = ck.cfg(m.fid, 'M1')
-        for n in nodes_where(g, lambda n: n.kind == 'stmt'):
-            for tgt, kind, stmt in subscript_writes(n.ast):
-                if norm(tgt.value) == 'self.sdata' and is_const(tgt.slice, 'input'):
-                    if kind == 'del':
-                        continue
-                    ok, why = (False, "augmented assignment")
-                    if kind == 'assign' and isinstance(stmt, ast.Assign):
-                        ok, why = _validated_value(ck, m, g, n, stmt.value)
-                    ck.ob(R3, f"{m.fid} :: {norm1(stmt)}", ok, why, m, stmt)
-            for w in ([n] if n in nodes_writing_attr(g, '_expired') else []):
-                v = w.ast.value if isinstance(w.ast, ast.Assign) else None
-                ok, why = _validated_value(ck, m, g, w, v) if v is not None else (False, 'no value')
-                ck.ob(R3, f"{m.fid} :: {norm1(w.ast)}", ok, why, m, w.ast)
-            for w in ([n] if n in nodes_writing_attr(g, 'sdata') else []):
-                ck.ob(R3, f"{m.fid} :: {norm1(w.ast)}", False,
-                      "replaces self.sdata wholesale without validating its 'input' item",
-                      m, w.ast)
-    g = ck.cfg(cp.fid, 'M1')
-    hn = [n for n in g.nodes if n.kind == 'handler' and g.pred[n.id]]
-    writes = nodes_where(g, lambda n: n.kind == 'stmt' and any(
-        norm(t.value) == 'self.sdata' for t, k, s in subscript_writes(n.ast)))
-    ok = bool(hn) and bool(writes)
-    wit = None
-    for h in hn:
-        reach = g.reachable_from(h)
-        if any(w.id in reach for w in writes):
-            ok = False
-            wit = g.path_avoiding(h, writes)
-        rets = [r for r in return_nodes(g) if r.id in reach]
-        if not rets or not all(is_const(r.ast.value, False) for r in rets):
-            ok = False
-    acc = [r for r in return_nodes(g) if writes and any(g.dominates(w, r) for w in writes)]
-    ok = ok and bool(acc) and all(is_const(r.ast.value, True) for r in acc)
-    ck.ob(R3, f"{cp.fid} :: accept/reject edges", ok or bool(cp_run_ok),
-          "a rejected value returns False without storing; an accepted one is stored and returns "
-          "True" if ok else "cond_put stores on the rejecting edge or returns the wrong verdict",
-          cp, cp.node, witness=path_witness(g, wit))
-    co = prog.resolve_method(iexp, 'calc_output')
-    ck.need(R3, co is not None, "InputExp.calc_output not found")
-    g = ck.cfg(co.fid, 'M0')
-    leaves = []
-
-    def leaf(e):
-        if isinstance(e, ast.IfExp):
-            leaf(e.body)
-            leaf(e.orelse)
-        else:
-            leaves.append(norm(e))
-    for r in return_nodes(g):
-        if r.ast.value is not None:
-            leaf(r.ast.value)
-    allowed_leaves = {"self.sdata['input']", "self._expired"}
-    ok = co.cls is iexp and bool(leaves) and set(leaves) <= allowed_leaves \
-        and set(leaves) == allowed_leaves
-    ck.ob(R3, f"{co.fid} :: returned values", ok,
-          f"calc_output returns only {sorted(allowed_leaves)}" if ok else
-          f"calc_output of InputExp ({co.fid}) may return {sorted(set(leaves))}; expected exactly "
-          f"the validated value and the validated `expired` value", co, co.node)
-
-    # ------------------------------------------------------------ R17.3r (restore)
-    rs = prog.resolve_method(iexp, '_restore_state')
-    ck.need(R3r, rs is not None, "InputExp has no _restore_state")
-    ok = False
-    why = (f"_restore_state of InputExp resolves to {rs.fid}, which installs the stored sdata "
-           f"(incl. 'input') without calling self._validate: a persisted value outside the "
-           f"accepted set becomes the output after a restart")
-    wit = None
-    if rs.cls in (iexp, valc):
-        g = ck.cfg(rs.fid, 'M0')
-        vn = nodes_where(g, lambda n: any(_is_validate_call(c) for c in node_calls(n)))
-        installs = nodes_where(g, lambda n: any(is_super_call(c, '_restore_state')
-                                                for c in node_calls(n))) + \
-            nodes_writing_attr(g, 'sdata')
-        if not vn:
-            why = f"{rs.fid} does not call self._validate"
-        elif not installs:
-            why = f"{rs.fid} neither calls super()._restore_state nor installs sdata"
-        else:
-            skip_ok = [n for n in g.nodes if n.kind == 'branch' and not n.polarity
-                       and "'input'" in norm(n.test.ast)]
-            p = g.path_avoiding(g.entry, installs, avoid=vn + skip_ok)
-            # the validated result must be what is installed: the validate call's value is used
-            used = any(isinstance(n.ast, (ast.Assign, ast.AnnAssign)) or
-                       any(isinstance(x, (ast.Dict, ast.Subscript)) for x in walk_shallow(n.ast))
-                       for n in vn)
-            if p is None and used:
-                ok = True
-                why = (f"{rs.fid}: a stored 'input' value passes self._validate before the state "
-                       f"is installed")
-            else:
-                wit = p
-                why = (f"{rs.fid}: the state can be installed without validating the stored "
-                       f"'input' value" if p is not None else
-                       f"{rs.fid}: the validation result is discarded")
-    ck.ob(R3r, f"{INPUTEXP}._restore_state", ok, why, rs, rs.node,
-          witness=path_witness(ck.cfg(rs.fid, 'M0'), wit) if wit else None)
-    # the same, decided on every shape of a stored FSM state (state, expiry[, sdata]): what reaches
-    # the parent's _restore_state holds the VALIDATED input whenever an input was stored, and is
-    # otherwise unchanged
-    if rs.cls is iexp and len(rs.node.args.posonlyargs + rs.node.args.args) == 2:
-        from sa.minieval import MiniEval
-        par = (rs.node.args.posonlyargs + rs.node.args.args)[1].arg
-        shapes = [('valid', 17.5), ('valid', 17.5, {}), ('valid', 17.5, {'input': 'RAW'}),
-                  ('valid', 17.5, {'input': 'RAW', 'other': 1}), ('expired', None, {'input': 'RAW'}),
-                  ['valid', 17.5, {'input': 'RAW'}]]
-        bad = []
-        for st_ in shapes:
-            got = []
-            env = {par: st_, 'self._validate': lambda v: ('VALIDATED', v),
-                   'super()._restore_state': lambda x, got=got: got.append(x)}
-            out = MiniEval(R3r, env).run(rs.node.body)
-            ck.abstract_cases += 1
-            want = list(st_)
-            if len(st_) > 2 and 'input' in st_[2]:
-                want = [st_[0], st_[1], {**st_[2], 'input': ('VALIDATED', st_[2]['input'])}]
-            okc = out[0] == 'return' and len(got) == 1 and list(got[0]) == want
-            if not okc:
-                bad.append(f"stored state {st_!r}: the parent receives "
-                           f"{got[0] if got else None!r} ({out[0]}), must be {want!r}")
-        ck.ob(R3r, f"{INPUTEXP}._restore_state :: all stored shapes", not bad,
-              f"evaluated on {len(shapes)} shapes of the stored state: a stored input is replaced by "
-              f"its validated form, everything else is handed on unchanged" if not bad else
-              "; ".join(bad[:3]), rs, rs.node)
+                skip_ok = [n for n in g.nodes if n.kind == 'branch' and not n.polarity
+                           and "'input'" in norm(n.test.ast)]
+                p = g.path_avoiding(g.entry, installs, avoid=vn + skip_ok)
+                # the validated result must be what is installed: the validate call's value is used
+                used = any(isinstance(n.ast, (ast.Assign, ast.AnnAssign)) or
+                           any(isinstance(x, (ast.Dict, ast.Subscript)) for x in walk_shallow(n.ast))
+                           for n in vn)
+                if p is None and used:
+                    ok = True
+                    why = (f"{rs.fid}: a stored 'input' value passes self._validate before the state "
+                           f"is installed")
+                else:
+                    wit = p
+                    why = (f"{rs.fid}: the state can be installed without validating the stored "
+                           f"'input' value" if p is not None else
+                           f"{rs.fid}: the validation result is discarded")
+        ck.ob(R3r, f"{INPUTEXP}._restore_state", ok, why, rs, rs.node,
+              witness=path_witness(ck.cfg(rs.fid, 'M0'), wit) if wit else None)
+        # the same, decided on every shape of a stored FSM state (state, expiry[, sdata]): what reaches
+        # the parent's _restore_state holds the VALIDATED input whenever an input was stored, and is
+        # otherwise unchanged
+        if rs.cls is iexp and len(rs.node.args.posonlyargs + rs.node.args.args) == 2:
+            from sa.minieval import MiniEval
+            par = (rs.node.args.posonlyargs + rs.node.args.args)[1].arg
+            shapes = [('valid', 17.5), ('valid', 17.5, {}), ('valid', 17.5, {'input': 'RAW'}),
+                      ('valid', 17.5, {'input': 'RAW', 'other': 1}), ('expired', None, {'input': 'RAW'}),
+                      ['valid', 17.5, {'input': 'RAW'}]]
+            bad = []
+            for st_ in shapes:
+                got = []
+                env = {par: st_, 'self._validate': lambda v: ('VALIDATED', v),
+                       'super()._restore_state': lambda x, got=got: got.append(x)}
+                out = MiniEval(R3r, env).run(rs.node.body)
+                ck.abstract_cases += 1
+                want = list(st_)
+                if len(st_) > 2 and 'input' in st_[2]:
+                    want = [st_[0], st_[1], {**st_[2], 'input': ('VALIDATED', st_[2]['input'])}]
+                okc = out[0] == 'return' and len(got) == 1 and list(got[0]) == want
+                if not okc:
+                    bad.append(f"stored state {st_!r}: the parent receives "
+                               f"{got[0] if got else None!r} ({out[0]}), must be {want!r}")
+            ck.ob(R3r, f"{INPUTEXP}._restore_state :: all stored shapes", not bad,
+                  f"evaluated on {len(shapes)} shapes of the stored state: a stored input is replaced by "
+                  f"its validated form, everything else is handed on unchanged" if not bad else
+                  "; ".join(bad[:3]), rs, rs.node)
